@@ -47,6 +47,8 @@ def servable_name(name, toplevel=True, full=False):
         return False
     if name != name.strip():
         return False
+    if name.endswith("."):
+        return False  # 'dir.' + '/child' contains './': the selector filter makes the children unservable (C12's carve-out)
     # str.strip() of the decoded selector strips unicode whitespace too: exclude NEL/NBSP etc. at ends
     dec = name.encode("latin-1").decode("utf-8", "surrogateescape")
     if dec != dec.strip():
